@@ -73,6 +73,15 @@
 (*        lockup (vesting) schedule before it and of the grant's lockup (vesting)    *)
 (*        periods: Locked is computed from the stored schedule, so a grant stored    *)
 (*        under a wrong schedule would silently move the lock                        *)
+(*   tracked-exceeds-staked  the same for a merged grant / a conversion of a plain  *)
+(*        account into a vesting account: the tracking may be (re-)based to what is *)
+(*        really staked - bonded tokens + balances of the unbonding entries, both    *)
+(*        read from the staking store - plus what the transaction delegates, not more *)
+(*   schedule-changed-by-incoming  a transfer TO the account by a third party        *)
+(*        (bank send of a native or ERC20-registered coin, multi-send, EVM value,      *)
+(*        coin <-> ERC20 conversion with the account as receiver) changed its type,    *)
+(*        schedule, original vesting or tracked delegation.  If it stripped the         *)
+(*        schedule, the last stored one keeps binding (ghost, as after a conversion)    *)
 (*   failed-tx-*          a failed transaction changed the account, moved more   *)
 (*        than its declared fee, or paid the fee out of locked coins             *)
 (* P never asserts that a transaction is accepted.                             *)
@@ -167,6 +176,8 @@ DelegKinds == {"delegate", "exec_delegate", "pc_delegate", "pc_delegate_contract
 RebondKinds == {"cancel_unbond", "exec_cancel_unbond", "pc_cancel_unbond"}
 MergeKinds == {"merge", "convert_into", "convert_into_stake"}
 NonTx      == {"reset", "begin", "end", "tick", "slash"}
+IncomingKinds == {"fund_extra", "in_send_pair", "in_multisend", "in_eth", "in_convert_coin", "in_convert_erc20"}
+SchedFrame(v) == <<v.exists, v.start, v.end, v.lockup, v.vesting, v.orig, IF v.exists THEN <<v.df, v.dv>> ELSE <<>> >>
 
 Frame(v) == <<v.exists, v.start, v.end, v.lockup, v.vesting, v.orig, v.df, v.dv, v.bonded, v.unbonding>>
 
@@ -193,8 +204,11 @@ Broken(e, s, t) ==
          IN
          IF e.ok
          THEN IF ~Bound(post) THEN {}
-              ELSE (IF pre.exists /\ ~post.exists /\ StillRestricted(pre, now)
+              ELSE (IF e.ev \notin IncomingKinds /\ pre.exists /\ ~post.exists /\ StillRestricted(pre, now)
                     THEN {"converted-while-locked"} ELSE {})
+                   \cup
+                   (IF e.ev \in IncomingKinds /\ Bound(pre) /\ SchedFrame(pre) # SchedFrame(post) /\ ~(pre.ghost /\ post.ghost)
+                    THEN {"schedule-changed-by-incoming"} ELSE {})
                    \cup
                    (IF e.ev \in MergeKinds /\ pre.exists /\ post.exists /\ ~MergedAsExpected(pre, post, e.args.grant)
                     THEN {"merge-schedule-differs"} ELSE {})
@@ -206,7 +220,8 @@ Broken(e, s, t) ==
                    (IF isD /\ BigLT(Deficit(pre, now), Deficit(post, now))
                     THEN {"delegated-unvested"} ELSE {})
                    \cup
-                   (IF ~(pre.exists /\ ~post.exists) /\ TrackedOver(e, pre, post, dl) THEN {"tracked-overcount"} ELSE {})
+                   (IF ~(pre.exists /\ ~post.exists) /\ TrackedOver(e, pre, post, dl)
+                    THEN {IF e.ev \in MergeKinds THEN "tracked-exceeds-staked" ELSE "tracked-overcount"} ELSE {})
          ELSE IF ~Bound(pre) THEN {}
               ELSE (IF Frame(pre) # Frame(post) THEN {"failed-tx-changed-account"} ELSE {})
                    \cup
@@ -486,7 +501,9 @@ MAcct(v, t, ev, args) ==
                 IN IF ev = "convert_into" THEN R(TRUE, w)
                    ELSE IF BigSign(vs) > 0 /\ BigLE(vs, w.bank[BondDenom]) THEN R(TRUE, Delegated(w, vs))
                    ELSE R(FALSE, v)
-      [] ev = "fund_extra" -> R(TRUE, CreditV(v, c))
+      [] ev \in {"fund_extra", "in_multisend", "in_eth", "in_convert_erc20"} -> R(TRUE, CreditV(v, c))
+      \* a bank send of an ERC20-registered coin and a coin -> ERC20 conversion deliver tokens on the EVM layer
+      [] ev \in {"in_send_pair", "in_convert_coin"} -> R(TRUE, v)
       [] ev = "withdraw"   -> LET p == PayFee(v, t, f) IN
                               IF ~p.ok THEN R(FALSE, v) ELSE IF BigSign(v.bonded) > 0 THEN R(TRUE, p.v) ELSE R(FALSE, p.v)
       [] ev = "grant_authz" -> LET p == PayFee(v, t, f) IN IF p.ok THEN R(TRUE, [p.v EXCEPT !.authz = TRUE]) ELSE R(FALSE, v)
@@ -721,6 +738,10 @@ SimNext ==
        \/ (Pick(1..2, hist) = 1 /\ SimMerge(hist))
        \/ (Pick(1..2, hist) = 1 /\ SimLiquidate(hist))
        \/ (Pick(1..2, hist) = 1 /\ FundAct)
+       \/ (Pick(1..2, hist) = 1 /\ \E ev \in {Pick(IncomingKinds \ {"fund_extra"}, hist)} :
+               LET pair == IF Denoms = {BondDenom} THEN BondDenom ELSE CHOOSE x \in Denoms : x # BondDenom
+                   d    == IF ev = "in_eth" THEN BondDenom ELSE IF ev = "in_multisend" THEN Pick(Denoms, hist) ELSE pair
+               IN Do(ev, Args(VLOne(Denoms, d, "1"), ZC, "0", "-")))
        \/ SimSlash
 
 SimInit == /\ hist = <<>> /\ ini = EmptyAcct /\ slashed = FALSE
